@@ -132,4 +132,9 @@ class MoreInfoFromHeaderMixin:
         if referrer is None:
             return None
 
-        return URL(url=referrer)
+        try:
+            url = URL(url=referrer)
+            url.port  # raises ValueError unless absent or a number in 0-65535
+        except ValueError:
+            return None
+        return url
